@@ -55,6 +55,14 @@ FIELD_TYPES = {
     "_instructions": "InstructionList",  # model.py SpaceUpdater.__init__
     "errorstack": "ErrorStack",
 }
+# element type of the member containers (impl level): <space>.cells[name] -> CellsImpl, ...
+ELEMENT_TYPES = {
+    "cells": "CellsImpl", "_cells": "CellsImpl",
+    "own_refs": "ReferenceImpl", "_own_refs": "ReferenceImpl", "global_refs": "ReferenceImpl",
+    "_global_refs": "ReferenceImpl", "refs": "ReferenceImpl",
+    "named_spaces": "BaseSpaceImpl", "_named_spaces": "BaseSpaceImpl", "spaces": "BaseSpaceImpl",
+    "param_spaces": "ItemSpaceImpl",
+}
 # (class, field) overrides where the same field name means something else
 FIELD_TYPES_BY_CLASS = {
     ("SpaceUpdater", "manager"): "SpaceManager",      # model.py SpaceUpdater.__init__
@@ -211,6 +219,13 @@ class CallGraph:
                 if impls:
                     return set(impls)
             return None
+        if isinstance(e, ast.Subscript) and isinstance(e.value, ast.Attribute):
+            # element of a typed member container: <x>.cells[name] is a cells, ...
+            et = ELEMENT_TYPES.get(e.value.attr)
+            if et and not any(p in "." + fi.module.name + "." for p in INTERFACE_LEVEL_MODULE_PARTS) \
+                    and not (fi.cls is not None and fi.cls in self._impl_of_iface):
+                return {repo.cls(et)} if repo.has_cls(et) else None
+            return None
         if isinstance(e, ast.Name):
             if e.id == "self" and fi.cls is not None and fi.kind not in ("static",):
                 return {fi.cls}
@@ -277,6 +292,9 @@ class CallGraph:
                                 out.append(nxt.methods[name])
                             break
             return [(f, "exact") for f in out], name, rtext
+        # builtin base class called explicitly: dict.__setitem__(self, ...), deque.pop(self), object.__setattr__(...)
+        if rtext in ("dict", "deque", "object", "list", "set", "tuple", "str", "type"):
+            return [], name, rtext
         # Class.m(self, ...) / module.func(...)
         if rtext:
             ci = repo.resolve_class(fi.module, rtext)
